@@ -13,6 +13,11 @@ specs/lp/LpConvert.tla general-form programs classified on the general form (ver
 Direction spec->code: every printed program is given to lp.Simplex (no initial basis, tol 1e-10 and 1e-6, and
 once per feasible basis the spec named as explicit initialBasic) resp. lp.Convert + lp.Simplex; the returned
 error / point / value is judged against the class and exact rational optimum TLC printed.
+A general-form program is a set of VALUES: the harness hands every one of them to Convert with G and A stored
+as a compact Dense, as a Slice view into a wider junk-filled matrix (G cut out of [junk | G | h | junk]: stride !=
+columns), as the transpose view of a Dense and as a user type that is a mat.Matrix and nothing else (all four, and
+two seed-chosen mixed pairs), the vectors as exact allocations or as windows of longer junk-filled arrays; class
+and optimum are the specification's for each of them, and no operand (junk included) may change (harness/internal/lp/lp.go).
 
 run_lp(ctx) performs the stages and does not call ctx.finish (the caller, tools/props/C19.py, does).
 """
@@ -104,6 +109,13 @@ def families(th, seed):
     gen("conv rnd nv3 ni3", "rnd", 3, 3, 0, (1, 2), (1, 2), 120 * k, shards=w)
     gen("conv rnd nv3 ni2 ne1", "rnd", 3, 2, 1, (1, 2), (1, 2), 120 * k, shards=w)
     gen("conv rnd nv2 ni3 ne1", "rnd", 2, 3, 1, (1, 2), (1, 2), 24 * k, shards=w)
+    # two and more equality rows (the block [A, -A, 0] of the standard form has >= 2 rows), and programs with
+    # equalities only (pointed <=> NE = NV: the feasible set is one point or empty after the sign split)
+    gen("conv rnd nv3 ni2 ne2", "rnd", 3, 2, 2, (1, 2), (1, 2), 60 * k, shards=w)
+    gen("conv rnd nv3 ni1 ne2", "rnd", 3, 1, 2, (1, 2), (1, 2), 60 * k, shards=w // 2)
+    gen("conv rnd nv2 ni1 ne2", "rnd", 2, 1, 2, (2, 2), (2, 3), 120 * k, shards=w // 2)
+    gen("conv rnd nv2 ni0 ne2 (equalities only)", "rnd", 2, 0, 2, (2, 2), (2, 3), 100 * k, shards=w // 2)
+    gen("conv rnd nv3 ni0 ne3 (equalities only)", "rnd", 3, 0, 3, (1, 2), (1, 2), 60 * k, shards=w // 2)
     if th:
         gen("conv rnd nv2 ni4", "rnd", 2, 4, 0, (1, 2), (1, 2), 400, shards=8)
     return F
